@@ -143,8 +143,14 @@ def job_double(first):
     for h2 in HDR:
         for v1 in ['<%s>' % h2, 'a', '\\', '<' + h2, '']:
             for v2 in ['', 'a', '$', '\\1', '<%s>' % h1, '&']:
-                for tpl in ['<%s><%s>' % (h1, h2), '<%s><%s>' % (h2, h1), 'x<%s>' % h1, '<%s<%s>>' % (h1, h2), '<%s>' % (h1 + h2)]:
+                for tpl in ['<%s><%s>' % (h1, h2), '<%s><%s>' % (h2, h1), 'x<%s>' % h1, '<%s<%s>>' % (h1, h2), '<%s>' % (h1 + h2), '<%s>' % h1, '<%s>' % h2]:
                     run_case([h1, h2], [[v1, v2], [v2, v1]], tpl, acc)
+        # a later header that encloses an earlier placeholder, and three columns chained through their values
+        for v1, v2 in (('q', 'w'), ('<%s>' % h2, 'w'), ('', '<%s>' % h1)):
+            for tpl in ('<<%s>>' % h1, '<%s>' % h1, '<<<%s>>>' % h1):
+                run_case([h1, '<%s>' % h1], [[v1, v2], [v2, v1]], tpl, acc)
+                run_case(['<%s>' % h1, h1], [[v1, v2], [v2, v1]], tpl, acc)
+        run_case([h1, h2, 'z'], [['<%s>' % h2, '<z>', 'end'], ['<z>', '<%s>' % h1, '<%s>' % h2]], '<%s>' % h1, acc)
     acc.sample({'headers': [h1, HDR[-1]], 'rows': [['<%s>' % HDR[-1], '&']], 'template': '<%s><%s>' % (h1, HDR[-1])})
     return acc
 
